@@ -540,10 +540,23 @@ def s_invert(a):
 
 
 def s_div(a, b):
+    """NumPy semantics: no exception on a zero divisor; x/0 (inf or nan in NumPy) is modelled as NaN"""
     a, b = _num(a), _num(b)
     if _conc(a) and _conc(b):
-        return np.true_divide(a, b)
-    return a / b
+        with np.errstate(all="ignore"):
+            return np.true_divide(a, b)
+    if isinstance(a, (SFP, UVal, SBV)) or isinstance(b, (SFP, UVal, SBV)):
+        return a / b
+    ra, rb = core._as_real(a), core._as_real(b)
+    z = core._b(mkbool(z3.simplify(rb.t == 0)))
+    if z is False:
+        return ra / rb
+    if z is True:
+        return SReal(z3.RealVal(0), True)
+    safe = SReal(z3.If(z, z3.RealVal(1), rb.t), rb.nan)
+    q = ra / safe
+    nan = core._nan_or(z3.Or(core._bt(q.nan), z))
+    return SReal(q.t, nan)
 
 
 def s_mod(a, b):
